@@ -278,6 +278,34 @@ pub fn check(case: &Case, ctx: &mut CaseCtx) {
     if reaches_records || has_pointer {
         ctx.nontrivial(format!("{} {}", case.family, shape));
     }
+    // pointer-looking byte pairs that lead to further pointer-looking pairs (multi-hop chains),
+    // and chains that end in a pair pointing at itself or forward (hidden cycles)
+    if bytes.len() <= 2048 {
+        let tgt = |i: usize| -> Option<usize> {
+            if i + 1 < bytes.len() && bytes[i] & 0xC0 == 0xC0 {
+                let t = ((bytes[i] as usize & 0x3F) << 8) | bytes[i + 1] as usize;
+                (t + 1 < bytes.len() && bytes[t] & 0xC0 == 0xC0).then_some(t)
+            } else {
+                None
+            }
+        };
+        let mut two_hop = false;
+        let mut hidden_cycle = false;
+        for i in 12..bytes.len() {
+            if let Some(t1) = tgt(i) {
+                if t1 < i {
+                    if let Some(t2) = tgt(t1) {
+                        two_hop = true;
+                        if t2 < t1 && tgt(t2).is_some_and(|t3| t3 >= t2) {
+                            hidden_cycle = true;
+                        }
+                    }
+                }
+            }
+        }
+        ctx.class_if(two_hop, "pointer-chain:two-hops-or-more");
+        ctx.class_if(hidden_cycle, "pointer-chain:decreasing-then-cycle");
+    }
     if ctx.want_sample {
         ctx.sample = Some(json!({
             "family": case.family, "len": bytes.len(),
@@ -613,6 +641,8 @@ enum NamePiece {
     PtrAbs(u16),
     /// Pointer to the start of an earlier name (index).
     PtrName(usize),
+    /// Pointer into earlier RDATA made of raw pointer bytes (index); see `HostileEntry::bait`.
+    PtrBait(usize),
     End,
     /// Length byte promising more than is there.
     Overlong(u8),
@@ -628,6 +658,7 @@ fn name_pieces() -> BoxedStrategy<Vec<NamePiece>> {
         1 => (1u16..40).prop_map(NamePiece::PtrForward),
         1 => (0u16..0x3FFF).prop_map(NamePiece::PtrAbs),
         3 => (0usize..8).prop_map(NamePiece::PtrName),
+        2 => (0usize..4).prop_map(NamePiece::PtrBait),
         4 => Just(NamePiece::End),
         1 => (1u8..64).prop_map(NamePiece::Overlong),
     ];
@@ -640,8 +671,12 @@ struct HostileEntry {
     rtype: u16,
     class: u16,
     ttl: u32,
-    /// RDATA: 0 = well-formed for type, 1 = random bytes, 2 = name pieces, 3 = empty
+    /// RDATA: 0 = well-formed for type, 1 = random bytes, 2 = name pieces, 3 = empty,
+    /// 4 = "bait": raw compression pointers hidden in bytes that are not parsed as a name
     rdata_kind: u8,
+    /// bait pointers: (kind, arg) with kind 0 = to offset 0, 1 = to itself, 2 = into the header,
+    /// 3 = to the previous bait, 4 = to the next two bytes, 5 = to an earlier name start
+    bait: Vec<(u8, u8)>,
     rdata_name: Vec<NamePiece>,
     rdata_raw: Vec<u8>,
     /// RDLENGTH adjustment: None = correct; Some(v) = declared value delta.
@@ -658,7 +693,7 @@ fn hostile_entry() -> BoxedStrategy<HostileEntry> {
         ],
         prop_oneof![Just(1u16), Just(0x8001), any::<u16>()],
         prop_oneof![Just(0u32), Just(1), Just(120), any::<u32>()],
-        0u8..4,
+        (0u8..5, proptest::collection::vec((0u8..6, any::<u8>()), 1..4)),
         name_pieces(),
         proptest::collection::vec(any::<u8>(), 0..40),
         prop_oneof![
@@ -669,12 +704,13 @@ fn hostile_entry() -> BoxedStrategy<HostileEntry> {
         proptest::bool::weighted(0.2),
     )
         .prop_map(
-            |(name, rtype, class, ttl, rdata_kind, rdata_name, rdata_raw, rdlen_delta, is_question)| HostileEntry {
+            |(name, rtype, class, ttl, (rdata_kind, bait), rdata_name, rdata_raw, rdlen_delta, is_question)| HostileEntry {
                 name,
                 rtype,
                 class,
                 ttl,
                 rdata_kind,
+                bait,
                 rdata_name,
                 rdata_raw,
                 rdlen_delta,
@@ -684,7 +720,7 @@ fn hostile_entry() -> BoxedStrategy<HostileEntry> {
         .boxed()
 }
 
-fn write_pieces(b: &mut Vec<u8>, pieces: &[NamePiece], name_starts: &[usize]) {
+fn write_pieces(b: &mut Vec<u8>, pieces: &[NamePiece], name_starts: &[usize], bait_starts: &[usize]) {
     let start = b.len();
     let ptr = |b: &mut Vec<u8>, off: usize| {
         let off = off & 0x3FFF;
@@ -734,6 +770,11 @@ fn write_pieces(b: &mut Vec<u8>, pieces: &[NamePiece], name_starts: &[usize]) {
                 ptr(b, target);
                 terminated = true;
             }
+            NamePiece::PtrBait(i) => {
+                let target = if bait_starts.is_empty() { 0 } else { bait_starts[i % bait_starts.len()] };
+                ptr(b, target);
+                terminated = true;
+            }
             NamePiece::End => {
                 b.push(0);
                 terminated = true;
@@ -755,7 +796,13 @@ fn write_pieces(b: &mut Vec<u8>, pieces: &[NamePiece], name_starts: &[usize]) {
 
 fn fam_hostile() -> BoxedStrategy<Case> {
     (
-        any::<[u8; 4]>(),
+        // the first header bytes sometimes are compression pointers themselves (a cycle hidden in the ID / flags)
+        prop_oneof![
+            4 => any::<[u8; 4]>(),
+            1 => Just([0xC0u8, 0x00, 0x84, 0x00]),
+            1 => Just([0xC0u8, 0x02, 0xC0, 0x00]),
+            1 => Just([0xC0u8, 0x01, 0x00, 0x00]),
+        ],
         proptest::collection::vec(hostile_entry(), 0..8),
         // counts: None = truthful
         proptest::option::weighted(0.3, (0u16..6, 0u16..6, 0u16..4, 0u16..6)),
@@ -766,20 +813,21 @@ fn fam_hostile() -> BoxedStrategy<Case> {
             b[0..4].copy_from_slice(&hdr);
             // make header bytes sometimes look like name bytes so header pointers matter
             let mut name_starts: Vec<usize> = Vec::new();
+            let mut bait_starts: Vec<usize> = Vec::new();
             let mut qn = 0u16;
             let mut an = 0u16;
             // questions first (wire order), then records
             let (qs, rs): (Vec<&HostileEntry>, Vec<&HostileEntry>) = entries.iter().partition(|e| e.is_question);
             for e in qs {
                 name_starts.push(b.len());
-                write_pieces(&mut b, &e.name, &name_starts.clone());
+                write_pieces(&mut b, &e.name, &name_starts.clone(), &bait_starts);
                 b.extend_from_slice(&e.rtype.to_be_bytes());
                 b.extend_from_slice(&e.class.to_be_bytes());
                 qn += 1;
             }
             for e in rs {
                 name_starts.push(b.len());
-                write_pieces(&mut b, &e.name, &name_starts.clone());
+                write_pieces(&mut b, &e.name, &name_starts.clone(), &bait_starts);
                 b.extend_from_slice(&e.rtype.to_be_bytes());
                 b.extend_from_slice(&e.class.to_be_bytes());
                 b.extend_from_slice(&e.ttl.to_be_bytes());
@@ -791,12 +839,12 @@ fn fam_hostile() -> BoxedStrategy<Case> {
                         T_AAAA => b.extend_from_slice(&e.rdata_raw.iter().chain([0u8; 16].iter()).take(16).copied().collect::<Vec<_>>()),
                         T_PTR | T_CNAME => {
                             name_starts.push(b.len());
-                            write_pieces(&mut b, &e.rdata_name, &name_starts.clone())
+                            write_pieces(&mut b, &e.rdata_name, &name_starts.clone(), &bait_starts)
                         }
                         T_SRV => {
                             b.extend_from_slice(&[0, 0, 0, 0, 0, 80]);
                             name_starts.push(b.len());
-                            write_pieces(&mut b, &e.rdata_name, &name_starts.clone())
+                            write_pieces(&mut b, &e.rdata_name, &name_starts.clone(), &bait_starts)
                         }
                         T_HINFO => {
                             let k = e.rdata_raw.len().min(10);
@@ -807,7 +855,7 @@ fn fam_hostile() -> BoxedStrategy<Case> {
                         }
                         T_NSEC => {
                             name_starts.push(b.len());
-                            write_pieces(&mut b, &e.rdata_name, &name_starts.clone());
+                            write_pieces(&mut b, &e.rdata_name, &name_starts.clone(), &bait_starts);
                             let k = (e.rdata_raw.len() % 33).max(1);
                             b.push(0);
                             b.push(k as u8);
@@ -818,7 +866,23 @@ fn fam_hostile() -> BoxedStrategy<Case> {
                     1 => b.extend_from_slice(&e.rdata_raw),
                     2 => {
                         name_starts.push(b.len());
-                        write_pieces(&mut b, &e.rdata_name, &name_starts.clone())
+                        write_pieces(&mut b, &e.rdata_name, &name_starts.clone(), &bait_starts)
+                    }
+                    4 => {
+                        for (kind, arg) in &e.bait {
+                            let here = b.len();
+                            let target = match kind {
+                                0 => 0,
+                                1 => here,
+                                2 => (*arg % 12) as usize,
+                                3 => bait_starts.last().copied().unwrap_or(0),
+                                4 => here + 2,
+                                _ => name_starts.get(*arg as usize % name_starts.len().max(1)).copied().unwrap_or(0),
+                            } & 0x3FFF;
+                            bait_starts.push(here);
+                            b.push(0xC0 | (target >> 8) as u8);
+                            b.push(target as u8);
+                        }
                     }
                     _ => {}
                 }
@@ -1040,6 +1104,8 @@ pub fn run(tier: Tier) -> i32 {
     }
     agg.require_class("datagrams:crate:ok", 10_000);
     agg.require_class("datagrams:crate:err", 10_000);
+    agg.require_class("datagrams:pointer-chain:two-hops-or-more", 20_000);
+    agg.require_class("datagrams:pointer-chain:decreasing-then-cycle", 2_000);
     agg.finish()
 }
 
